@@ -243,8 +243,15 @@ class TransitionTask(Task):
             dct['function'] = FUNC
             if res.status == 'refuted':
                 dct['reason'] = ob.meta.get('note', '')
-                from props.C04_scenarios import replay_for
-                dct['replay'] = replay_for(ob.name, ob.meta.get('scenario'), res.model or {}, self.m)
+                if self.prop in ('C11', 'C16'):
+                    from contracts.decoder_scenarios import replay_for as rf
+                    dct['replay'] = rf(self.prop, ob.meta.get('scenario'), res.model or {})
+                    if not dct['replay'].get('confirmed'):
+                        from props.C04_scenarios import replay_for
+                        dct['replay'] = replay_for(ob.name, ob.meta.get('scenario'), res.model or {}, self.m)
+                else:
+                    from props.C04_scenarios import replay_for
+                    dct['replay'] = replay_for(ob.name, ob.meta.get('scenario'), res.model or {}, self.m)
             out['results'].append(dct)
         return out
 
